@@ -172,6 +172,12 @@ ASMJIT_FAVOR_SIZE Error BaseEmitHelper::emit_args_assignment(const FuncFrame& fr
 
         reg.set_signature_and_id(RegUtils::signature_of(cur.reg_type()), reg_id);
         wd.unassign(var_id, reg_id);
+
+        // Sign or zero extend the integer in place (the register is not needed after the store) if the destination
+        // is wider than the source.
+        if (is_int_extension_required(out.type_id(), cur.type_id())) {
+          ASMJIT_PROPAGATE(emit_arg_move(reg, out.type_id(), reg, cur.type_id()));
+        }
       }
       else {
         // Stack to reg move - tricky since we move stack to stack we can decide which register to use. In general
@@ -198,8 +204,14 @@ ASMJIT_FAVOR_SIZE Error BaseEmitHelper::emit_args_assignment(const FuncFrame& fr
         work_data[RegGroup::kGp].unassign(var_id, cur.reg_id());
       }
 
-      // Register to stack move.
-      ASMJIT_PROPAGATE(emit_reg_move(dst_stack_ptr, reg, cur.type_id()));
+      // Register to stack move - integers were already converted to the type of the destination, which is stored.
+      TypeId store_type_id = cur.type_id();
+      if (TypeUtils::is_int(out.type_id()) && TypeUtils::is_int(cur.type_id())) {
+        store_type_id = out.type_id();
+        reg.set_signature(get_suitable_reg_for_mem_to_mem_move(arch, store_type_id, store_type_id));
+      }
+
+      ASMJIT_PROPAGATE(emit_reg_move(dst_stack_ptr, reg, store_type_id));
       var.mark_done();
     }
   }
